@@ -299,6 +299,9 @@ def run(tier, seed, out):
         rec = bbyid[v["id"]]
         out.fail({"clause": v["v"], "root": rec["e"]["t"], "family": "big"},
                  {"case": rec["e"], "fam": "big", "benv": rec["benv"], "recorded": rec["r"], "aux": rec["aux"]})
+    # logical operators by Python's own meaning (C02_Logic.tla)
+    from harness import c02logic
+    c02logic.run_family(out, wd)
     shards = kit.write_shards(recs, wd / "trace", "c02", 12000)
     verdicts, st, tr = kit.judge_shards("C02_Judge", "C02_Judge", shards)
     out.states += st
@@ -345,6 +348,13 @@ def replay(path, out):
         pool = [p["pool"] for p in hist.printed() if "pool" in p][0]
         recs = [r for r in kit.drive("harness.c02", "drive_hist", [{"id": "h0", "hist": det["hist"]}],
                                      {"envs": envs[0], "pool": pool})[0]]
+    elif det.get("fam") == "logic":
+        from harness import c02logic
+        lgen = kit.run_tlc("C02_Logic", "C02_Logic", workers=2, coverage=False)
+        lenvs = [p["envs"] for p in lgen.printed() if "envs" in p][0]
+        lrecs = kit.drive("harness.c02", "drive_case", [{"id": "l0", "e": det["case"]}], {"envs": lenvs})
+        c02logic.judge(out, lrecs, wd)
+        return
     elif det.get("fam") == "big":
         big = kit.run_tlc("C02_Big", "C02_Big", workers=2, coverage=False)
         bigenvs = [p["bigenvs"] for p in big.printed() if "bigenvs" in p][0]
